@@ -18,6 +18,8 @@ import p_runtime
 from vlib import ToolError, log
 
 SIZES = "{0,1,2,54,55,56,57,63,64,65,119,120,127,128,129,200}"
+TOKCHARS = "{0,1,16,17,21,22,32,33,51,59,60,64,65}"
+TOKWIDTHS = "{1,2,3,4}"
 
 
 def writer_part(tier, tag):
@@ -25,13 +27,23 @@ def writer_part(tier, tag):
     os.makedirs(d, exist_ok=True)
     maxw = 3 if tier == "quick" else 4
     cfg = os.path.join(d, "MC_Writer.cfg")
-    vlib.write_cfg(cfg, spec="WSpec", constants={"Sizes": SIZES, "MaxWrites": maxw},
-                   invariants=["WriterOK", "DeadAfterDigest", "EmitInv"])
+    consts = {"Sizes": SIZES, "MaxWrites": maxw, "TokChars": TOKCHARS, "TokWidths": TOKWIDTHS}
+    vlib.write_cfg(cfg, spec="WSpec", constants=consts, invariants=["WriterOK", "DeadAfterDigest", "EmitInv"])
     r = vlib.run_tlc(cfg, os.path.join(vlib.VERIF, "spec/mc/MC_Writer.tla"), workers=8, heap="6g", tag="writer")
     if r["violated"] or not r["ok"]:
         raise ToolError("Sha256Writer.tla invariant failed:\n" + r["tail"])
     behs = vlib.tagged_lines(r["lines"], "BEH")
-    log(f"[writer] {len(behs)} behaviours from {r['distinct']} model states")
+    # the token layer: every sequence of <= 2 string / tag tokens over the explored lengths and widths
+    cfgk = os.path.join(d, "MC_Writer_tokens.cfg")
+    vlib.write_cfg(cfgk, spec="TSpec", constants=dict(consts, MaxWrites=2), invariants=["WriterOK", "DeadAfterDigest", "EmitInv"])
+    rk = vlib.run_tlc(cfgk, os.path.join(vlib.VERIF, "spec/mc/MC_Writer.tla"), workers=8, heap="6g", tag="writer-tokens")
+    if rk["violated"] or not rk["ok"]:
+        raise ToolError("Sha256Writer.tla (token layer) invariant failed:\n" + rk["tail"])
+    tb = vlib.tagged_lines(rk["lines"], "BEH")
+    behs += tb
+    r["distinct"] += rk["distinct"]
+    r["states"] += rk["states"]
+    log(f"[writer] {len(behs)} behaviours ({len(tb)} of the token layer) from {r['distinct']} model states")
     jobs = [{"kind": "writer", "id": k, "behaviours": behs[k::12]} for k in range(12)]
     obs = vlib.run_driver(jobs, tag + "-w", shards=12)
     import concurrent.futures as cf
@@ -43,7 +55,8 @@ def writer_part(tier, tag):
                 f.write(json.dumps(e) + "\n")
         paths.append((p, obs[k]["events"], behs[k::12]))
     cfgt = os.path.join(d, "Trace_Writer.cfg")
-    vlib.write_cfg(cfgt, spec="TraceSpec", constants={"Sizes": SIZES, "MaxWrites": 100}, invariants=["Report"], postcondition="Accepted")
+    vlib.write_cfg(cfgt, spec="TraceSpec", constants={"Sizes": SIZES, "MaxWrites": 100, "TokChars": TOKCHARS, "TokWidths": TOKWIDTHS},
+                   invariants=["Report"], postcondition="Accepted")
 
     def one(k):
         return vlib.validate_trace(paths[k][0], os.path.join(vlib.VERIF, "spec/trace/Trace_Writer.tla"), cfgt, heap="2g", tag=f"{tag}-w{k}")
@@ -66,7 +79,8 @@ def writer_part(tier, tag):
                 ev = paths[k][1]
                 i = j["line"] - 1
                 start = max(x for x in range(i + 1) if ev[x]["ev"] == "new")
-                payload = {"property": "C13", "complaint": j["kind"], "writes": [e["n"] for e in ev[start:i + 1] if e["ev"] == "upd"],
+                payload = {"property": "C13", "complaint": j["kind"],
+                           "writes": [e["n"] if e["ev"] == "upd" else [e["k"], e["c"], e["w"]] for e in ev[start:i + 1] if e["ev"] in ("upd", "tok")],
                            "events": ev[start:i + 1]}
                 violations.append((vlib.write_replay("C13", f"{tier}-w{len(violations)}", payload),
                                    f"writer: {j['kind']} after writes {payload['writes']}"))
